@@ -60,14 +60,33 @@ Proof. vm_compute. repeat constructor. Qed.
 Definition bitkey (i : nat) : bytes := pack (repeat false i ++ [true] ++ repeat false (135 - i)).
 Definition es_deep : list entry := map (fun i => (bitkey i, [N.of_nat i])) (seq 0 130).
 
-Lemma pdepth_indep H S t : pdepth (chunk_of H S t) = pdepth (chunk_of H0 S t).
+(* number of internal nodes above the leaf that holds key [k] *)
+Definition keq (k : bytes) (e : entry) : bool := bytes_eqb (fst e) k.
+Fixpoint kdepth (k : bytes) (t : tree) : nat :=
+  match t with
+  | Node _ _ l r =>
+      if existsb (keq k) (contents l) then S (kdepth k l)
+      else if existsb (keq k) (contents r) then S (kdepth k r) else 0
+  | _ => 0
+  end.
+
+Lemma keq_in k l : existsb (keq k) l = true -> exists v, In (k, v) l.
 Proof.
-  induction t as [|k v|lbl lf l IHl r IHr].
-  - reflexivity.
-  - unfold chunk_of. cbn [prune_opt]. destruct (S k); reflexivity.
-  - destruct (selected_dec S (Node lbl lf l r)) as [Hs|Hn].
-    + rewrite !chunk_node by exact Hs. cbn [pdepth]. now rewrite IHl, IHr.
-    + unfold chunk_of. rewrite !prune_unselected by exact Hn. reflexivity.
+  intros E. apply existsb_exists in E as ([k' v] & Hin & Hk). unfold keq in Hk. cbn in Hk.
+  apply bytes_eqb_eq in Hk. subst k'. eauto.
+Qed.
+
+Lemma kdepth_chunk H S k t : S k = true -> kdepth k t <= pdepth (chunk_of H S t).
+Proof.
+  intros HS. induction t as [|k0 v0|lbl lf l IHl r IHr]; cbn [kdepth]; try lia.
+  destruct (existsb (keq k) (contents l)) eqn:El.
+  - apply keq_in in El as [v Hin].
+    rewrite chunk_node by (exists k, v; split; [cbn [contents]; rewrite !in_app_iff; auto|exact HS]).
+    cbn [pdepth]. lia.
+  - destruct (existsb (keq k) (contents r)) eqn:Er; [|lia].
+    apply keq_in in Er as [v Hin].
+    rewrite chunk_node by (exists k, v; split; [cbn [contents]; rewrite !in_app_iff; auto|exact HS]).
+    cbn [pdepth]. lia.
 Qed.
 
 (* the genuine chunk of a well-formed tree is REJECTED by the verifier model
@@ -79,23 +98,17 @@ Theorem deep_tree_chunk_rejected :
 Proof.
   exists es_deep.
   assert (Forall (fun e => valid_bytes (fst e)) es_deep) as Hv by (apply keys_valid_ok; vm_compute; reflexivity).
-  split; [exact Hv|]. split; [now apply build_wf|]. intros H size.
-  (* the chunk that visits the last key *)
-  set (t := build es_deep).
-  assert (In (bitkey 129, [129%N]) (contents t)) as Hin by (vm_compute; tauto).
+  split; [exact Hv|]. split; [exact (build_wf _ Hv)|]. intros H size. clear Hv.
+  set (t := build es_deep). set (k := bitkey 129).
+  assert (existsb (keq k) (contents t) = true) as Hex by (vm_compute; reflexivity).
+  apply keq_in in Hex as [v Hin].
+  assert (kdepth k t = 129) as Hk by (vm_compute; reflexivity).
+  clearbody t k.
   pose proof (seq_runs_concat size t) as Ec. rewrite <- Ec in Hin.
   apply in_concat in Hin as (run & Hr & He).
   exists (chunk_of H (inrun run) t). split.
   - unfold chunks, chunk_runs. exact (in_map (fun run0 => chunk_of H (inrun run0) t) _ _ Hr).
-  - unfold verify. apply andb_false_iff. left. apply Nat.leb_gt. rewrite pdepth_indep.
-    (* every chunk containing that key has the full path: depth 129 *)
-    assert (forall S, S (bitkey 129) = true -> 129 <= pdepth (chunk_of H0 S t)) as Hdeep.
-    { intros S HS. subst t.
-      assert (forall n t0, (forall S0, S0 (bitkey 129) = true -> n <= pdepth (chunk_of H0 S0 t0)) -> True) by trivial.
-      (* walk down the 129 internal nodes *)
-      set (t0 := build es_deep). vm_compute in t0. subst t0.
-      repeat (rewrite chunk_node by (exists (bitkey 129), [129%N]; split; [vm_compute; tauto|exact HS]);
-              cbn [pdepth]; apply le_n_S || idtac; etransitivity; [|apply Nat.le_max_l]).
-      all: lia. }
-    unfold MAX_PROOF_DEPTH. specialize (Hdeep (inrun run) (inrun_self run _ _ He)). lia.
+  - unfold verify. apply andb_false_iff. left. apply Nat.leb_gt.
+    pose proof (kdepth_chunk H (inrun run) k t (inrun_self run _ _ He)) as Hd.
+    unfold MAX_PROOF_DEPTH. lia.
 Qed.
